@@ -1,5 +1,7 @@
 package hsim
 
+import "hagallsim/simrt"
+
 func histProfile(name string, over map[string]int, f func(p *Profile)) *Profile {
 	p := &Profile{Name: name, MinSteps: 8, MaxSteps: 70, MaxConns: 6, MaxSessions: 3, W: weights(over),
 		PBurst: 0.05, PBlock: 0, PNoPose: 0.03, PClose: 0.04, PProbe: 0.06, PDie: 0.3,
@@ -20,6 +22,10 @@ func histSpec(id string, prof *Profile, rule string, nt func(res *Result) bool) 
 				sc := genOffender(seed, tier, "stall")
 				sc.Prop = id
 				return sc
+			}
+			if (id == "C06" || id == "C12" || id == "C01") && seed%5 == 1 {
+				// block after block of simultaneous requests on one entity / component / action
+				return duel(seed, simrt.NewRand(seed, "duel"), prof, id)
 			}
 			if id == "C13" && seed%10 < 3 {
 				return subChurn(seed, prof)
@@ -52,9 +58,9 @@ func trig(res *Result, keys ...string) bool {
 func init() {
 	props["C14"] = histSpec("C14", histProfile("C14", map[string]int{"custom": 40}, func(p *Profile) { p.MinMembers = 3 }),
 		"distinct run digests in which at least one custom message was accepted", func(r *Result) bool { return trig(r, "op:custom") })
-	props["C01"] = histSpec("C01", histProfile("C01", nil, func(p *Profile) { p.PBlock = 0.08; p.PFocus = 0.4; p.PProbe = 0.1 }),
+	props["C01"] = histSpec("C01", histProfile("C01", nil, func(p *Profile) { p.PBlock = 0.08; p.PFocus = 0.4; p.PProbe = 0.1; p.PEndgame = 0.1 }),
 		"distinct run digests with an accepted state change and at least one probe/late joiner", func(r *Result) bool { return trig(r, "op:join") })
-	props["C02"] = histSpec("C02", histProfile("C02", nil, func(p *Profile) { p.MinMembers = 3; p.PBlock = 0.08; p.PFocus = 0.3 }),
+	props["C02"] = histSpec("C02", histProfile("C02", nil, func(p *Profile) { p.MinMembers = 3; p.PBlock = 0.08; p.PFocus = 0.3; p.PEndgame = 0.15 }),
 		"distinct run digests with at least one accepted relayed change in a session of >= 2", func(r *Result) bool { return trig(r) })
 	props["C04"] = histSpec("C04", histProfile("C04", nil, func(p *Profile) { p.PBurst = 0.1 }),
 		"distinct run digests with at least one accepted and one refused request", func(r *Result) bool { return trig(r) })
@@ -66,13 +72,14 @@ func init() {
 		p.BlockOps = []string{"joiner", "joiner", "entity_add", "entity_delete", "pose"}
 	}),
 		"distinct run digests with an ownership decision (delete/pose/asset on an entity)", func(r *Result) bool { return trig(r, "op:entity_delete", "op:pose", "op:asset_add") })
-	props["C06"] = histSpec("C06", histProfile("C06", map[string]int{"switch": 6, "entity_add": 16, "comp_add": 10, "action": 8, "asset_add": 8, "subscribe": 6}, func(p *Profile) {
+	props["C06"] = histSpec("C06", histProfile("C06", map[string]int{"switch": 6, "entity_add": 16, "comp_add": 10, "action": 8, "asset_add": 8, "subscribe": 8, "unsubscribe": 6, "type_add": 5}, func(p *Profile) {
 		p.MinMembers = 2
 		p.PClose = 0.1
 		p.PProbe = 0.1
 		p.PDie = 0.5
 		p.PBlock = 0.06 // a departure overlapping a join or another member's change
 		p.PFocus = 0.3
+		p.PEndgame = 0.15
 		p.BlockOps = []string{"close", "close", "switch", "joiner", "joiner", "entity_add", "comp_add", "action"}
 	}),
 		"distinct run digests with a departure of a member that owned entities", func(r *Result) bool { return trig(r, "departure", "server_ended") })
@@ -94,6 +101,15 @@ func init() {
 		"distinct run digests with a subscription and a component change", func(r *Result) bool { return trig(r, "op:subscribe") && trig(r, "op:comp_add", "op:comp_update") })
 	props["C16"] = histSpec("C16", histProfile("C16", map[string]int{"action": 22, "asset_add": 16, "entity_add": 12, "entity_delete": 8}, func(p *Profile) { p.AllModules = true; p.MinMembers = 2; p.PProbe = 0.1; p.PClose = 0.06 }),
 		"distinct run digests with an accepted action or asset", func(r *Result) bool { return trig(r, "op:action", "op:asset_add") })
-	props["C11"] = histSpec("C11", histProfile("C11", map[string]int{"pose": 30, "entity_add": 12, "entity_delete": 6, "switch": 4}, func(p *Profile) { p.MinMembers = 2; p.PBurst = 0.2; p.PProbe = 0.08 }),
+	props["C11"] = histSpec("C11", histProfile("C11", map[string]int{"pose": 30, "entity_add": 12, "entity_delete": 6, "switch": 4}, func(p *Profile) {
+		p.MinMembers = 2
+		p.PBurst = 0.2
+		p.PProbe = 0.08
+		// joins, switches, departures and deletions arriving at the very instant pending
+		// updates are flushed by the frame tick
+		p.PBlock = 0.1
+		p.BlockOps = []string{"pose", "pose", "pose", "joiner", "joiner", "switch", "close", "entity_delete", "entity_add"}
+		p.ProbeAfterBlock = 0.6
+	}),
 		"distinct run digests with an accepted pose update", func(r *Result) bool { return trig(r, "op:pose", "deferred_burst") })
 }
